@@ -58,31 +58,35 @@ def check_origins(run, F, E):
             detail = {'origin objects': len(decls), 'destructors': len(dtors), 'user calls': len(user)}
         run.ob('C06.a', 'S_<%s>::%s scopes its user code in Origin{control, %s}' % (sid, fn.m, sid), ok, where=fn.pat, detail=detail,
                key='S_::%s does not scope its callbacks in the right origin' % fn.m)
-    # the origin helper itself
+    # the origin helper itself, decided by evaluating it: constructed on (control, id) it installs id in the control's origin slot, and when
+    # it is destroyed the slot holds again what it held before -- however the helper keeps hold of the control (reference, pointer) and
+    # however its members are named
     for tk in ('ControlT::Origin', 'ConstControlT::Origin'):
-        for fn in F.find(tk):
-            if fn.kind == 'ctor' and not fn.d.get('implicit'):
-                inits = {i.get('name'): i for i in fn.inits if i.get('written')}
-                okc = 'control' in inits and 'prevId' in inits
-                if okc:
-                    src = ir.strip(inits['prevId']['e'])
-                    if src['k'] == 'init' and len(src['es']) == 1:
-                        src = ir.strip(src['es'][0])
-                    okc = ir.pp(src) in ('control._originId',) and src['k'] == 'mem'
-                    cs = ir.strip(inits['control']['e'])
-                    if cs['k'] == 'init' and len(cs['es']) == 1:
-                        cs = ir.strip(cs['es'][0])
-                    okc = okc and cs['k'] == 'var' and cs.get('pi') == 0
-                writes = [e for e in ir.all_exprs(fn) if e['k'] == 'asg']
-                okw = len(writes) == 1 and ir.pp(writes[0]['l']) == 'control._originId' and \
-                    ir.strip(writes[0]['r'])['k'] == 'var' and ir.strip(writes[0]['r']).get('pi') == 1
-                run.ob('C06.a', '%s constructor saves the previous origin id and installs the new one' % tk, okc and okw, where=fn.pat,
-                       key='%s constructor does not save/install the origin id' % tk)
-            if fn.kind == 'dtor':
-                writes = [e for e in ir.all_exprs(fn) if e['k'] == 'asg']
-                ok = len(writes) == 1 and ir.pp(writes[0]['l']) == 'control._originId' and ir.pp(ir.strip(writes[0]['r'])) == 'prevId'
-                run.ob('C06.a', '%s destructor restores the previous origin id' % tk, ok, where=fn.pat,
-                       key='%s destructor does not restore the origin id' % tk)
+        ctors = [f for f in F.find(tk) if f.kind == 'ctor' and not f.d.get('implicit') and f.d.get('ctorkind') not in ('copy', 'move') and len(f.params) == 2]
+        dtors = [f for f in F.find(tk) if f.kind == 'dtor' and f.body is not None]
+        seen = set()
+        for ctor in ctors:
+            if ctor.pat in seen:
+                continue
+            seen.add(ctor.pat)
+            dtor = next((d for d in dtors if d.cls == ctor.cls), None)
+            if dtor is None:
+                raise AnalysisBroken('%s has no destructor with a body' % tk)
+            bad = None
+            for before, new_id in ((7, 3), (255, 0), (0, 255), (4, 4)):
+                ev = Evaluator(F)
+                ctrl = Obj(_originId=before)
+                try:
+                    o = ev.construct(ctor, [ctrl, new_id], 0)
+                    mid = ctrl.get('_originId')
+                    ev.call(dtor, o, [])
+                    after = ctrl.get('_originId')
+                except cmpdomain.NotPure as x:
+                    raise AnalysisBroken('%s is not evaluable: %s' % (tk, x))
+                if (ev.raw(mid), ev.raw(after)) != (new_id, before) and bad is None:
+                    bad = {'origin before': before, 'id': new_id, 'while alive': ev.raw(mid), 'after destruction': ev.raw(after)}
+            run.ob('C06.a', '%s installs the new origin id for its lifetime and restores the previous one when destroyed' % tk, bad is None, where=ctor.pat,
+                   detail=bad, key='%s does not install / restore the origin id' % tk)
 
 
 # ------------------------------------------------------------------------------------------- C06.b
